@@ -15,3 +15,4 @@ Definition c_leaf_links := @leaf_links HK HV.
 Definition c_gi_b := @gi_b HK HV hltb.
 Definition c_gi_full_b := @gi_full_b HK HV hltb.
 Definition c_all_pc_ok_b := @all_pc_ok_b HK HV hltb.
+Definition c_occ_ok_b := @occ_ok_b HK HV.
